@@ -63,7 +63,7 @@ structure Clause where
   oLowerAlias : Bytes := []
   oUpperAlias : Bytes := []
   oTemporal : Bool := false
-  deriving Repr
+  deriving Repr, DecidableEq
 
 def dedup (l : List Bytes) : List Bytes := l.foldl (fun acc b => if acc.contains b then acc else acc ++ [b]) []
 
